@@ -102,6 +102,10 @@ def run(prog, chk):
     chk.rule("R16.2", "in each front-end every non-unwind path from the first call that can run user code to Return "
                       "passes the on_exit call; a `?` exit is discharged only if its callee is NoErr (returns only Ok) "
                       "by its own MIR")
+    # stack balance (C18 R18.1) is a premise of the ErrOnlyFrameMismatch discharge: evaluate it here too
+    from rules import c18
+    unbalanced = ["%s: %s" % (fn, esc[0][1]) for fn, acq, rels, pb, pt, esc in c18.pair_findings(prog, summ) if esc]
+    unbalanced_blocks = {}
     for fe in sorted(FRONT_ENDS):
         b = prog.impl_body(fe)
         if not chk.anchor("R16.2", fe, b):
@@ -134,7 +138,10 @@ def run(prog, chk):
                     why = "ErrOnlyBeforeUserCode: every error exit of the callee precedes its first user-code call"
                 else:
                     ks = summ.err_kinds(nm)
-                    if ks is not None and ks and ks <= FRAME_MISMATCH_KINDS:
+                    if ks is not None and ks and ks <= FRAME_MISMATCH_KINDS and unbalanced:
+                        # the discharge below rests on stack balance; it does not hold on this tree
+                        unbalanced_blocks[e] = unbalanced[0]
+                    elif ks is not None and ks and ks <= FRAME_MISMATCH_KINDS:
                         why = ("ErrOnlyFrameMismatch: callee can only fail with %s, i.e. when the call-stack top is not the frame "
                                "pushed by the paired start_* call; excluded by stack balance (C18 R18.1)" % sorted(ks))
             if why:
@@ -158,9 +165,13 @@ def run(prog, chk):
                         continue
                     reported.add(key)
                     line = src.line if src is not None else b.blocks[e].term.line
+                    extra = "callee is not NoErr"
+                    if e in unbalanced_blocks:
+                        extra = ("its only failure is a call-stack frame mismatch, which is feasible because stack balance does not hold: %s"
+                                 % unbalanced_blocks[e])
                     chk.fail("R16.2", fe, key,
-                             "`?` on %s at %s leaves %s without calling on_exit after user code may have run (first user-code call: %s at line %s); callee is not NoErr"
-                             % (nm, b.loc(line), fe, ut.best_callee(), ut.line),
+                             "`?` on %s at %s leaves %s without calling on_exit after user code may have run (first user-code call: %s at line %s); %s"
+                             % (nm, b.loc(line), fe, ut.best_callee(), ut.line, extra),
                              detail={"path_blocks": p})
                 else:
                     key = "normal-path"
